@@ -627,14 +627,17 @@ class MemoryFS(FS):
         _path = self.validatepath(path)
         if _path == "/":
             raise errors.RemoveRootError()
-        # make sure the directory is empty
-        if not self.isempty(path):
-            raise errors.DirectoryNotEmpty(path)
-        # we can now delegate to removetree since we confirmed that
-        # * path exists (isempty)
-        # * path is a folder (isempty)
-        # * path is not root
-        self.removetree(_path)
+        # the emptiness check and the removal must be one atomic step:
+        # otherwise a file created in between is silently deleted
+        with self._lock:
+            # make sure the directory is empty
+            if not self.isempty(path):
+                raise errors.DirectoryNotEmpty(path)
+            # we can now delegate to removetree since we confirmed that
+            # * path exists (isempty)
+            # * path is a folder (isempty)
+            # * path is not root
+            self.removetree(_path)
 
     def removetree(self, path):
         # type: (Text) -> None
